@@ -1062,4 +1062,173 @@ example : ∃ v, exM.rowSums #[7, 7, 7] = .ok v ∧ v.size = 3 :=
   let ⟨v, h1, h2, _⟩ := rowSums_spec exM #[7, 7, 7] exM_canonical rfl rfl
   ⟨v, h1, h2⟩
 
+
+/-! ### infinity norms -/
+
+section norms
+variable [Field α] [LinearOrder α] [IsStrictOrderedRing α] [FloatLike α] [LawfulFloatLike α]
+
+/-- [F] (ordered field, `fmax = max`, `fabs = |·|`) `col_norms_no_reset`: slot `j` becomes
+the maximum of its old content and the absolute values stored in column `j`. -/
+theorem colNormsNoReset_spec (M : Csc α) (norms : Array α) (hM : Canonical M)
+    (hs : norms.size = M.n) :
+    ∃ v, M.colNormsNoReset norms = .ok v ∧ v.size = M.n ∧
+      ∀ j, j < M.n → ∃ r, v[j]? = some r ∧
+        IsMaxOf r (norms.getD j 0) ((M.col j).map (fun e => |e.2|)) := by
+  have hc := hM.colptr_size
+  have h1 : (M.colptr.size == 0) = false := by simp [hc]
+  have h2 : (norms.size != M.colptr.size - 1) = false := by simp [hc, hs]
+  refine ⟨_, by unfold colNormsNoReset; simp only [h1, h2, Bool.false_eq_true, ↓reduceIte]; rfl,
+    by simp [hs], fun j hj => ?_⟩
+  have hj' : j < norms.size := by omega
+  refine ⟨(M.col j).foldl (fun m e => fmax m (fabs e.2)) (norms.getD j 0), ?_, ?_⟩
+  · simp [List.getElem?_zipIdx, Array.getElem?_eq_getElem hj', Array.getD_eq_getD_getElem?]
+  · have : (M.col j).foldl (fun m e => fmax m (fabs e.2)) (norms.getD j 0)
+        = ((M.col j).map (fun e => |e.2|)).foldl (fun m a => max m a) (norms.getD j 0) := by
+      rw [List.foldl_map]
+      simp only [LawfulFloatLike.fmax_eq, LawfulFloatLike.fabs_eq]
+    rw [this]
+    exact foldl_max_isMaxOf _ _
+
+/-- [F] `col_norms` = `col_norms_no_reset` started from zeros: slot `j` is the largest
+absolute value stored in column `j` (0 for an empty column). -/
+theorem colNorms_spec (M : Csc α) (norms : Array α) (hM : Canonical M) (hs : norms.size = M.n) :
+    ∃ v, M.colNorms norms = .ok v ∧ v.size = M.n ∧
+      ∀ j, j < M.n → ∃ r, v[j]? = some r ∧ IsMaxOf r 0 ((M.col j).map (fun e => |e.2|)) := by
+  obtain ⟨v, h1, h2, h3⟩ := colNormsNoReset_spec M (norms.map (fun _ => (0 : α))) hM (by simpa using hs)
+  refine ⟨v, h1, h2, fun j hj => ?_⟩
+  obtain ⟨r, hr1, hr2⟩ := h3 j hj
+  refine ⟨r, hr1, ?_⟩
+  have : (norms.map (fun _ => (0 : α))).getD j 0 = 0 := by
+    rw [Array.getD_eq_getD_getElem?]
+    by_cases h : j < norms.size <;> simp [h]
+  rwa [this] at hr2
+
+/-- [F] `row_norms_no_reset` on a canonical matrix whose `colptr` starts at 0: slot `i`
+becomes the maximum of its old content and the absolute values stored in row `i`. -/
+theorem rowNormsNoReset_spec (M : Csc α) (norms : Array α) (hM : Canonical M)
+    (h0 : M.colptr.getD 0 0 = 0) (hs : norms.size = M.m) :
+    ∃ v, M.rowNormsNoReset norms = .ok v ∧ v.size = M.m ∧
+      ∀ i, i < M.m → ∃ r, v[i]? = some r ∧
+        IsMaxOf r (norms.getD i 0) ((M.cols.flatten.filter (fun e => e.1 == i)).map (fun e => |e.2|)) := by
+  have hb : ∀ e ∈ M.entries.map (fun e => (e.1, fabs e.2)), e.1 < norms.size := by
+    intro e he
+    simp only [List.mem_map] at he
+    obtain ⟨e', he', rfl⟩ := he
+    rw [hs]
+    exact hM.rows_bound _ (List.of_mem_zip he').1
+  obtain ⟨v, h1, h2, h3⟩ := scatter_spec (fun m t => fmax m t) norms
+    (M.entries.map (fun e => (e.1, fabs e.2))) hb
+  have hback : M.colptr.back? = some M.rowval.size := by
+    have hsz := hM.colptr_size
+    have hlast := hM.colptr_last
+    rw [Array.getD_eq_getD_getElem?, Array.getElem?_eq_getElem (by omega)] at hlast
+    rw [Array.back?_eq_getElem?, hsz, Nat.add_sub_cancel, Array.getElem?_eq_getElem (by omega)]
+    simpa using hlast
+  refine ⟨v, ?_, by rw [h2, hs], fun i hi => ?_⟩
+  · unfold rowNormsNoReset
+    rw [hback]
+    simp only [bne_self_eq_false, Bool.false_eq_true, ↓reduceIte]
+    exact h1
+  · have hi' : i < norms.size := by omega
+    refine ⟨_, by rw [h3 i hi', Array.getElem?_eq_getElem hi', Option.map_some], ?_⟩
+    have hget : norms[i] = norms.getD i 0 := by
+      rw [Array.getD_eq_getD_getElem?, Array.getElem?_eq_getElem hi']; rfl
+    rw [hget, colVals_map_val M.entries (fun v => fabs v) i, entries_eq_flatten_cols M hM h0]
+    have : (fun (m t : α) => fmax m t) = (fun m a => max m a) := by
+      funext m t; exact LawfulFloatLike.fmax_eq m t
+    rw [this]
+    have h4 : (colVals M.cols.flatten i).map (fun v => fabs v)
+        = (M.cols.flatten.filter (fun e => e.1 == i)).map (fun e => |e.2|) := by
+      unfold colVals
+      rw [List.map_map]
+      apply List.map_congr_left
+      intro e _
+      exact LawfulFloatLike.fabs_eq e.2
+    rw [h4]
+    exact foldl_max_isMaxOf _ _
+
+/-- [F] `row_norms`: slot `i` is the largest absolute value stored in row `i`. -/
+theorem rowNorms_spec (M : Csc α) (norms : Array α) (hM : Canonical M)
+    (h0 : M.colptr.getD 0 0 = 0) (hs : norms.size = M.m) :
+    ∃ v, M.rowNorms norms = .ok v ∧ v.size = M.m ∧
+      ∀ i, i < M.m → ∃ r, v[i]? = some r ∧
+        IsMaxOf r 0 ((M.cols.flatten.filter (fun e => e.1 == i)).map (fun e => |e.2|)) := by
+  obtain ⟨v, h1, h2, h3⟩ := rowNormsNoReset_spec M (norms.map (fun _ => (0 : α))) hM h0
+    (by simpa using hs)
+  refine ⟨v, h1, h2, fun i hi => ?_⟩
+  obtain ⟨r, hr1, hr2⟩ := h3 i hi
+  refine ⟨r, hr1, ?_⟩
+  have : (norms.map (fun _ => (0 : α))).getD i 0 = 0 := by
+    rw [Array.getD_eq_getD_getElem?]
+    by_cases h : i < norms.size <;> simp [h]
+  rwa [this] at hr2
+
+end norms
+
+/-- non-vacuity of the norm theorems (over ℚ-like fields: instantiated at `ℝ`) -/
+example : ∃ v, (⟨2, 2, #[0, 1, 2], #[0, 1], #[(-3 : ℝ), 2]⟩ : Csc ℝ).colNorms #[0, 0] = .ok v ∧ v.size = 2 :=
+  let ⟨v, h1, h2, _⟩ := colNorms_spec (⟨2, 2, #[0, 1, 2], #[0, 1], #[(-3 : ℝ), 2]⟩ : Csc ℝ) #[0, 0]
+    ((check_format_iff _).mp (by rfl)) rfl
+  ⟨v, h1, h2⟩
+
+
+/-- [F] `col_norms_sym_no_reset` on a canonical square matrix (the stored triangle of a
+symmetric matrix): slot `k` becomes the maximum of its old content and the absolute values
+of all stored entries lying in column `k` or in row `k`. -/
+theorem colNormsSymNoReset_spec [Field α] [LinearOrder α] [IsStrictOrderedRing α] [FloatLike α]
+    [LawfulFloatLike α] (M : Csc α) (norms : Array α) (hM : Canonical M) (hsq : M.m = M.n)
+    (hs : norms.size = M.n) :
+    ∃ v, M.colNormsSymNoReset norms = .ok v ∧ v.size = M.n ∧
+      ∀ k, k < M.n → ∃ r, v[k]? = some r ∧ norms.getD k 0 ≤ r ∧
+        (∀ j, j < M.n → ∀ e ∈ M.col j, (j = k ∨ e.1 = k) → |e.2| ≤ r) ∧
+        (r = norms.getD k 0 ∨ ∃ j, j < M.n ∧ ∃ e ∈ M.col j, (j = k ∨ e.1 = k) ∧ r = |e.2|) := by
+  have hc := hM.colptr_size
+  have h1 : (M.colptr.size == 0) = false := by simp [hc]
+  have h2 : (norms.size != M.colptr.size - 1) = false := by simp [hc, hs]
+  let T : List (Nat × α) := ((List.range norms.size).map (fun i =>
+      ((M.col i).map (fun e => [(i, fabs e.2), (e.1, fabs e.2)])).flatten)).flatten
+  have hmem : ∀ t, t ∈ T ↔ ∃ j, j < M.n ∧ ∃ e ∈ M.col j, t = (j, |e.2|) ∨ t = (e.1, |e.2|) := by
+    intro t
+    simp only [T, List.mem_flatten, List.mem_map, List.mem_range, hs]
+    constructor
+    · rintro ⟨_, ⟨j, hj, rfl⟩, _, ⟨e, he, rfl⟩, ht⟩
+      simp only [List.mem_cons, List.not_mem_nil, or_false, LawfulFloatLike.fabs_eq] at ht
+      exact ⟨j, hj, e, he, ht⟩
+    · rintro ⟨j, hj, e, he, ht⟩
+      refine ⟨_, ⟨j, hj, rfl⟩, _, ⟨e, he, rfl⟩, ?_⟩
+      simpa [LawfulFloatLike.fabs_eq] using ht
+  have hb : ∀ t ∈ T, t.1 < norms.size := by
+    intro t ht
+    obtain ⟨j, hj, e, he, h | h⟩ := (hmem t).mp ht
+    · rw [h, hs]; exact hj
+    · rw [h, hs]; have := (colOK_of_canonical hM j hj).2 e he; simp only; omega
+  obtain ⟨v, hv1, hv2, hv3⟩ := scatter_spec (fun m t => fmax m t) norms T hb
+  refine ⟨v, by unfold colNormsSymNoReset; simp only [h1, h2, Bool.false_eq_true, ↓reduceIte]; exact hv1,
+    by rw [hv2, hs], fun k hk => ?_⟩
+  have hk' : k < norms.size := by omega
+  have hget : norms[k] = norms.getD k 0 := by
+    rw [Array.getD_eq_getD_getElem?, Array.getElem?_eq_getElem hk']; rfl
+  have hfun : (fun (m t : α) => fmax m t) = (fun m a => max m a) := by
+    funext m t; exact LawfulFloatLike.fmax_eq m t
+  obtain ⟨m1, m2, m3⟩ := foldl_max_isMaxOf (colVals T k) (norms.getD k 0)
+  have hcv : ∀ a, a ∈ colVals T k ↔ ∃ j, j < M.n ∧ ∃ e ∈ M.col j, (j = k ∨ e.1 = k) ∧ a = |e.2| := by
+    intro a
+    unfold colVals
+    simp only [List.mem_map, List.mem_filter, beq_iff_eq]
+    constructor
+    · rintro ⟨t, ⟨ht, htk⟩, rfl⟩
+      obtain ⟨j, hj, e, he, h | h⟩ := (hmem t).mp ht
+      · subst h; exact ⟨j, hj, e, he, Or.inl htk, rfl⟩
+      · subst h; exact ⟨j, hj, e, he, Or.inr htk, rfl⟩
+    · rintro ⟨j, hj, e, he, h | h, rfl⟩
+      · exact ⟨(j, |e.2|), ⟨(hmem _).mpr ⟨j, hj, e, he, Or.inl rfl⟩, h⟩, rfl⟩
+      · exact ⟨(e.1, |e.2|), ⟨(hmem _).mpr ⟨j, hj, e, he, Or.inr rfl⟩, h⟩, rfl⟩
+  refine ⟨_, by rw [hv3 k hk', Array.getElem?_eq_getElem hk', Option.map_some, hget, hfun], m1, ?_, ?_⟩
+  · intro j hj e he hor
+    exact m2 _ ((hcv _).mpr ⟨j, hj, e, he, hor, rfl⟩)
+  · rcases m3 with h | h
+    · exact Or.inl h
+    · exact Or.inr ((hcv _).mp h)
+
 end Clarabel.C16
